@@ -1,11 +1,29 @@
-"""./vf replay <path>: show a recorded violation and, where the replay file carries a complete case, re-run it."""
+"""./vf replay <path>: show a recorded violation and, for the HFModel family (C01 C02 C10 C12), re-run exactly that case
+against the current tree (numpy, 64b)."""
 import json
+import random
 import sys
 
 
 def main(path):
     d = json.load(open(path))
-    print(f"property {d['property']}: {d['key']}")
-    print(json.dumps(d["detail"], indent=1, default=str)[:6000])
-    print("\nre-run the check of this property to re-evaluate on the current tree:  ./vf check", d["property"], "--tier quick")
+    prop = d["property"]
+    print(f"property {prop}: {d['key']}")
+    det = d["detail"]
+    case = det.get("case") if isinstance(det, dict) else None
+    if prop in ("C01", "C02", "C10", "C12") and isinstance(case, dict) and "chan_rates" in case:
+        from common import use_pyhf_src
+        use_pyhf_src()
+        import pyhf
+        import hfreplay
+        props = {"C01": ["C01", "C10"], "C02": ["C02"], "C10": ["C10"], "C12": ["C12", "C01"]}[prop]
+        F, drift, _ = hfreplay.check_case(pyhf, json.loads(json.dumps(case)), "numpy", "64b", props, random.Random(0), {})
+        mine = [f for f in F if f.prop in ({"C01", "C10"} if prop == "C01" else {prop})]
+        for f in mine:
+            print("STILL FAILS:", f.key)
+        if not mine:
+            print("the recorded case passes on the current tree")
+        return 1 if mine else 0
+    print(json.dumps(det, indent=1, default=str)[:6000])
+    print("\n(no single-case re-execution for this property: re-run  ./vf check", prop, "--tier quick )")
     return 0
